@@ -227,6 +227,9 @@ type world struct {
 
 // blobContent is the envelope labelled id: distinct for distinct labels, any size >= 24.
 func blobContent(id int, size int64) []byte {
+	if sp, shaped := curShapes[id]; shaped {
+		return shapedContent(sp, size)
+	}
 	b := make([]byte, size)
 	head := fmt.Sprintf("sig-envelope-%010d|", id)
 	n := copy(b, head)
@@ -608,6 +611,7 @@ type gen struct {
 	sizes    map[int]int64
 	ops      []Op
 	big      int // operations involving very large contents so far
+	shaped   []shapeSpec
 }
 
 func (g *gen) freshBlob(size int64) int {
@@ -727,9 +731,53 @@ func (g *gen) variant(s Desc) (Desc, string) {
 }
 
 func (g *gen) push(subject Desc, flavour string) Op {
+	if g.r.Intn(3) == 0 {
+		return g.shapedPush(subject, flavour, jsonShapes[g.r.Intn(len(jsonShapes))], 0)
+	}
 	size := g.envSize()
 	return Op{Kind: "push", Subject: &subject, Mt: g.envMt(), Blob: g.freshBlob(size), Bsize: size,
 		Layers: []Layer{}, Annos: g.annos(true), flavour: flavour}
+}
+
+// shapedPush pushes an envelope of a given shape (JSON in its many spellings, binary). core = 0: a new
+// core, or - one time in four - the core of an earlier shaped envelope of ANOTHER shape: the two then
+// differ only in insignificant white space / spelling and are nevertheless two envelopes.
+func (g *gen) shapedPush(subject Desc, flavour, shape string, core int) Op {
+	if core == 0 && len(g.shaped) > 0 && g.r.Intn(4) == 0 {
+		prev := g.shaped[g.r.Intn(len(g.shaped))]
+		if prev.shape != shape && strings.HasPrefix(prev.shape, "json-") && strings.HasPrefix(shape, "json-") {
+			core = prev.core
+		}
+	}
+	if core != 0 {
+		for _, sp := range g.shaped { // one envelope per (value, spelling): anything else would be the same bytes twice
+			if sp.core == core && sp.shape == shape {
+				core = 0
+			}
+		}
+	}
+	g.nextBlob++
+	id := g.nextBlob
+	if core == 0 {
+		core = id
+	}
+	sp := shapeSpec{shape: shape, core: core}
+	size := shapedMin(core, shape) + int64([]int{0, 1, 17, 300, 4000}[g.r.Intn(5)])
+	g.sizes[id] = size
+	curShapes[id] = sp
+	g.shaped = append(g.shaped, sp)
+	mt := mtJose
+	switch g.r.Intn(6) {
+	case 0:
+		mt = mtCose
+	case 1:
+		mt = g.envMt()
+	}
+	fl := flavour
+	if fl == "push" {
+		fl = "push:shaped-envelope"
+	}
+	return Op{Kind: "push", Subject: &subject, Mt: mt, Blob: id, Bsize: size, Layers: []Layer{}, Annos: g.annos(true), flavour: fl}
 }
 
 func (g *gen) rawBase(mt string, subject *Desc, atype string) Op {
@@ -1165,6 +1213,12 @@ func count(c *common.Ctx, in *Input, obs *Obs) {
 	pushes := 0
 	for _, o := range in.Ops {
 		c.Count("op:" + o.flavour)
+		if sp, shaped := curShapes[o.Blob]; shaped && o.Kind == "push" {
+			c.Count("envelope shape: " + sp.shape)
+			if sp.core != o.Blob {
+				c.Count("envelope shares its JSON value with another envelope (differs in spelling only)")
+			}
+		}
 		if o.Kind == "push" && o.Mt != mtJose && o.Mt != mtCose {
 			c.Count("push with a non-canonical envelope media type")
 		}
@@ -1213,6 +1267,7 @@ func Run(c *common.Ctx) error {
 		nSeq, maxPush, maxExtra = 1500, 12, 10
 	}
 	for n := 0; n < nSeq; n++ {
+		curShapes = map[int]shapeSpec{}
 		g := &gen{r: c.Rand, thorough: c.Thorough(), nSubj: 1 + c.Rand.Intn(3), sizes: map[int]int64{}}
 		if n%10 == 0 {
 			g.nSubj = 3
@@ -1305,6 +1360,28 @@ func lookAlikeScenario(g *gen, mt string) []Op {
 
 // fixedScenarios make sure every run contains each hostile shape at least once.
 var fixedScenarios = []func(g *gen) []Op{
+	func(g *gen) []Op { // one JSON value in every spelling, as JWS: all are distinct envelopes and round-trip byte for byte
+		var ops []Op
+		first := 0
+		for i, sh := range jsonShapes {
+			o := g.shapedPush(subjectDesc(i%2), "push:shaped-envelope:same-core", sh, first)
+			o.Mt = mtJose
+			if first == 0 {
+				first = curShapes[o.Blob].core
+			}
+			ops = append(ops, o)
+		}
+		return ops
+	},
+	func(g *gen) []Op { // the same under the COSE and a vendor media type, each with its own core
+		var ops []Op
+		for i, sh := range jsonShapes {
+			o := g.shapedPush(subjectDesc(i%3), "push:shaped-envelope", sh, 0)
+			o.Mt = []string{mtCose, "application/vnd.example.Envelope.v1+json", mtJose}[i%3]
+			ops = append(ops, o)
+		}
+		return ops
+	},
 	func(g *gen) []Op { // every non-canonical envelope media type, pushed over two subjects
 		var ops []Op
 		for i, mt := range oddMediaTypes {
